@@ -24,7 +24,10 @@ func GlobExpand(paths []string, recursive bool) <-chan string {
 			} else {
 				expanded, err := filepath.Glob(p)
 				if err != nil {
-					logger.Printf("Path error: %v", err)
+					// Not a valid pattern: like a pattern without matches, treat it as
+					// a literal path, so it is read or reported as an error downstream
+					logger.Printf("Path error: %v; Reading %s as a plain path", err, p)
+					c <- p
 				} else if len(expanded) > 0 {
 					for _, item := range expanded {
 						c <- item
